@@ -526,12 +526,40 @@ func ruleEpochZeroAppData(c *Ctx, r *Report) {
 					}
 					n++
 					key := short(fn)
-					if key != "(*dtls.Conn).handleApplicationDataRecord" {
-						r.Bad(rule, "payload-send:"+key, c.ipos(in), "a payload is delivered to Read from outside the application-data record consumer")
+					// role: whoever delivers a payload must deliver the Data of an ApplicationData record
+					var sent ssa.Value
+					switch x := in.(type) {
+					case *ssa.Send:
+						sent = x.X
+					case *ssa.Select:
+						for _, st := range x.States {
+							if st.Dir == types.SendOnly && isFieldLoad(st.Chan, "dtls.Conn", "decrypted") {
+								sent = st.Send
+								if mi, ok := sent.(*ssa.MakeInterface); ok {
+									sent = mi.X
+								}
+							}
+						}
+					}
+					if sent == nil || !allLeaves(c.Origins(sent, 0), func(v ssa.Value) bool { return isFieldLoad(v, "pkg/protocol.ApplicationData", "Data") }) {
+						r.Bad(rule, "payload-send:"+key, c.ipos(in), "a payload that is not the Data of an ApplicationData record is delivered to Read")
 						continue
 					}
-					// unreachable when the record's own header epoch is 0
-					w := (&Walk{Fn: fn, Assume: assumeAll(atomAssume{mLoad("pkg/protocol/recordlayer.Header", "Epoch"), vInt(0)})}).FromEntry()
+					// unreachable when the record's own header epoch is 0 (on the application-data branch
+					// when the consumer sits inside the content-type dispatch)
+					as := []atomAssume{
+						{mLoad("pkg/protocol/recordlayer.Header", "Epoch"), vInt(0)},
+						{mTypeAssertOK("pkg/protocol.ApplicationData"), vBool(true)},
+						{func(v ssa.Value) bool {
+							ex, ok := v.(*ssa.Extract)
+							if !ok || ex.Index != 1 {
+								return false
+							}
+							ta, ok := ex.Tuple.(*ssa.TypeAssert)
+							return ok && ta.CommaOk && namedOf(ta.AssertedType) != "pkg/protocol.ApplicationData"
+						}, vBool(false)},
+					}
+					w := (&Walk{Fn: fn, Assume: assumeAll(as...)}).FromEntry()
 					r.Check(!w.Reached[in], rule, key+":deliver", c.ipos(in), "with header epoch 0 the delivery is unreachable", "application data carried in an epoch-0 (unprotected, unauthenticated) record can be delivered to Read")
 					for _, b2 := range fn.Blocks {
 						for _, in2 := range b2.Instrs {
@@ -550,7 +578,7 @@ func ruleEpochZeroAppData(c *Ctx, r *Report) {
 							adv = true
 						}
 					}
-					r.Check(!adv, rule, key+":refused", c.pos(fn.Pos()), "epoch-0 application data yields an error outcome", "epoch-0 application data is silently accepted (nil error)")
+					r.Check(!adv && len(w.Returns) > 0, rule, key+":refused", c.pos(fn.Pos()), "epoch-0 application data yields an error outcome", "epoch-0 application data is silently accepted (nil error)")
 				}
 			}
 		}
